@@ -9,7 +9,9 @@ CONFIG = dict(
              "(explicit nonce), Signature.Verify, BaseMultiply, Multiply, XY.AddXY and the field layer (Negate/SetAdd/Mul/Inv/Normalize "
              "on structured values), and every output is compared byte-for-byte (and error "
              "kind for error kind) with an independent executable textbook implementation written in Lean over Nat (affine "
-             "chord-tangent law, double-and-add, extended Euclid, sqrt = c^((p+1)/4)) plus the Lean SHA-256; for SignHash the "
+             "chord-tangent law, double-and-add, extended Euclid, sqrt = c^((p+1)/4)) plus the Lean SHA-256; crafted signatures (tiny r with all four "
+             "recovery ids and the re-encodings r+n / r = n, p-1, p; s = a*r families that make the two halves of the double "
+             "multiplication collide) and an exhaustive small grid of ECmult(t*G, na, ng) are part of the stream; for SignHash the "
              "random nonce is read back from the signature (k = (z+rd)/s or its negation) and the signature must be exactly "
              "textbook ECDSA's for that nonce. Theorems (Lean 4) are about that textbook specification: curve_consts, "
              "G_on_curve, order_G (n*G = infinity by kernel evaluation), seckey_valid_iff, pubkey_valid_iff, parsePub_onCurve "
